@@ -141,7 +141,7 @@ impl EventGen for Container {
                 // Special case <svg> elements with an xmlns attribute - passed through
                 // transparently, with no bbox calculation.
                 if new_el.name == "svg" && new_el.get_attr("xmlns").is_some() {
-                    return Ok((self.0.all_events(context).into_verbatim_output(), None));
+                    return Ok((self.0.all_events(context).into_raw_output(), None));
                 }
                 new_el.eval_attributes(context)?;
                 if context.config.add_metadata {
@@ -559,7 +559,7 @@ pub fn process_events(
     // passed through by `Container`).
     if context.is_top_level() && is_real_svg(&input) {
         context.real_svg = true;
-        return Ok((input.into(), None));
+        return Ok((input.into_raw_output(), None));
     }
     let mut output = OutputList::new();
     let mut idx_output = BTreeMap::<OrderIndex, OutputList>::new();
